@@ -2,6 +2,7 @@ import Driver.Common
 import Lean.Elab.Deriving.FromToJson
 import Canine.Filetree.Model
 import Canine.Filetree.Path
+import Canine.Genesis.Modules
 import Canine.Crypto.Sha256
 open Lean (Json FromJson ToJson fromJson? toJson)
 namespace Canine.Filetree
@@ -10,6 +11,10 @@ deriving instance FromJson, ToJson for Entry
 deriving instance FromJson, ToJson for State
 deriving instance FromJson, ToJson for Op
 end Canine.Filetree
+namespace Canine.Genesis.Filetree
+deriving instance FromJson, ToJson for PubkeyRec
+deriving instance FromJson, ToJson for GenesisState
+end Canine.Genesis.Filetree
 
 namespace Driver.Filetree
 open Canine Canine.Filetree Driver
@@ -37,7 +42,19 @@ def check (j : Json) : Except String (Option String) := do
   if !keysNodup pre.files then throw "pre-state has duplicate keys"
   if !bad.isEmpty then return some s!"field=keyshape impl has keys not of the form address/owner/: {bad}"
   -- a restart of the network from its own exported genesis changes nothing the module holds
-  if let .ok (.str "restart") := getField j "op" then return diff pre post
+  if let .ok (.str "restart") := getField j "op" then
+    let gd : Option String ←
+      match j.getObjVal? "genesis" with
+      | .ok gj =>
+        if gj.isNull then pure none else do
+        let g : Genesis.Filetree.GenesisState ← fromJson? gj
+        let m := Genesis.Filetree.exportGenesis pre
+        let imported := Genesis.Filetree.initGenesis (Genesis.Filetree.blank pre) g
+        pure (allSome [cmpField "genesis.filesList" m.filesList g.filesList, cmpField "genesis.pubKeyList" m.pubKeyList g.pubKeyList,
+          cmpField "genesis.validate" (Genesis.Filetree.validate g) ((gj.getObjValAs? Bool "validateOk").toOption.getD true),
+          (diff imported post).map (fun d => "genesis.import " ++ d)])
+      | .error _ => pure none
+    return allSome [diff pre post, gd]
   let op : Op ← getField j "op" >>= fromJson?
   let ok : Bool ← getField j "ok" >>= fromJson?
   let resp : String ← getField j "respPath" >>= fromJson?
